@@ -72,6 +72,8 @@ def run(chk):
     chk.configs = ["all-features"]
     chk.explanation = __doc__
     S = summary.Summaries(p)
+    from . import normal
+    N = normal.Normalizer(p, S)
     tr = [t for t in p.traits.values() if t["path"].endswith("::U2fApi")]
     if not chk.require("R1 registration signature base", "R1|U2fApi", len(tr) == 1, "passkey_authenticator", "trait U2fApi not found"):
         return
@@ -192,11 +194,21 @@ def run(chk):
     if chk.require("R4 encodings", "R4|RegisterResponse::encode", enc, U, "RegisterResponse::encode not found"):
         chk.touched(enc)
         v = flow.simplify_term(flow.Terms(p, enc).place(0, (), enc.return_blocks()[0], "t"))
-        sc = segs_of(v)
-        ok = len(sc) == 7 and sc[0] == ("array", (("const", 5),)) and is_call(sc[1], "PublicKey::encode") and sc[1][2][0] == ("field", ("param", 1), "public_key") \
-            and sc[2][0] == "array" and sc[2][1][0][0] == "cast" and sc[2][1][0][1] == "u8" and has(sc[2], lambda x: is_call(x, "Vec::len") and x[2][0] == ("field", ("param", 1), "key_handle")) \
-            and sc[3] == ("field", ("param", 1), "key_handle") and sc[4] == ("field", ("param", 1), "attestation_certificate") and sc[5] == ("field", ("param", 1), "signature") \
-            and is_call(sc[6], "u16::to_be_bytes") and has(sc[6], lambda x: isinstance(x, tuple) and len(x) == 4 and x[0] == "agg" and x[2] == "NoError")
+        sc = []
+        pke = p.method(U + "register::PublicKey", "encode")
+        for s_ in segs_of(v):
+            # the public key's own encoding (R1|PublicKey::encode: 0x04 | x | y) written out, whether by call or in place
+            if is_call(s_, "PublicKey::encode") and pke is not None and len(s_[2]) == 1:
+                inner = segs_of(flow.simplify_term(flow.Terms(p, pke).place(0, (), pke.return_blocks()[0], "t")))
+                sc += [summary.replace(x, ("param", 1), s_[2][0]) for x in inner]
+            else:
+                sc.append(s_)
+        sc = flow.merge_const_segments(sc)
+        PK = ("field", ("param", 1), "public_key")
+        ok = len(sc) == 8 and sc[0] == ("bytes", b"\x05\x04") and sc[1] == ("field", PK, "x") and sc[2] == ("field", PK, "y") \
+            and sc[3][0] == "array" and sc[3][1][0][0] == "cast" and sc[3][1][0][1] == "u8" and has(sc[3], lambda x: is_call(x, "Vec::len") and x[2][0] == ("field", ("param", 1), "key_handle")) \
+            and sc[4] == ("field", ("param", 1), "key_handle") and sc[5] == ("field", ("param", 1), "attestation_certificate") and sc[6] == ("field", ("param", 1), "signature") \
+            and is_call(sc[7], "u16::to_be_bytes") and has(sc[7], lambda x: isinstance(x, tuple) and len(x) == 4 and x[0] == "agg" and x[2] == "NoError")
         chk.ob("R4 encodings", "R4|RegisterResponse::encode|layout", ok, where(enc), "segments: %s" % [flow.term_str(x)[:40] for x in sc])
     enc = p.method(U + "authenticate::AuthenticationResponse", "encode")
     if chk.require("R4 encodings", "R4|AuthenticationResponse::encode", enc, U, "AuthenticationResponse::encode not found"):
@@ -234,35 +246,35 @@ def run(chk):
         Tr = flow.Terms(p, rq)
         iv = intervals.Intervals(p, rq)
         be = names.calls_to(rq, "u32::from_be_bytes")
-        rng = None
-        for bb, t in rq.calls():
-            if names.call_is(t, "Index::index"):
-                st = iv.at(bb, "t")
-                r = iv.range_of(st, t["args"][1]) if st is not None else None
-                if r and r[0] == "range":
-                    rng = (r[1].exact(), r[2].exact())
-        chk.ob("R5 request framing", "R5|length-field", len(be) == 1 and rng == (3, 7), where(rq), "declared length = u32::from_be_bytes(value[%s..%s])" % (rng or ("?", "?")))
+        # which bytes of the frame feed which member of the parsed Request, as byte-range views (rules/bytesview.py)
+        from . import bytesview
+        Tr.indexed = True
+        IN = ("param", 1)
+        rags = find_aggs(rq, "Request")
+        fv = {}
+        dl = None
+        if rags:
+            bb_, i_, rv_ = rags[0]
+            for f_, o_ in zip(rv_["fields"], rv_["ops"]):
+                t_ = N.norm(Tr.operand(o_, bb_, i_))
+                if f_ == "data_len":
+                    dl = bytesview.int_decode(t_)
+                elif f_ in ("cla", "ins", "p1"):
+                    while is_call(t_, "Command::from") or is_call(t_, "From::from") or is_call(t_, "Into::into"):
+                        t_ = t_[2][0]
+                    fv[f_] = bytesview.closed_view(t_)
+        chk.ob("R5 request framing", "R5|length-field", dl == ("be", (IN, 3, 7)), where(rq), "declared length = %s" % (("%s-endian value of frame[%s..%s]" % (dl[0], dl[1][1], dl[1][2])) if dl and dl[1][0] == IN else "not a recognised read of the frame"))
         # the shortest frame that gets past the length guard is the bare 7-byte header (a request without data, e.g. VERSION)
         lo = None
-        if be:
-            st = iv.at(be[0][0], "t")
+        site_bb = be[0][0] if be else (rags[0][0] if rags else None)
+        if site_bb is not None:
+            st = iv.at(site_bb, "t")
             if st is not None:
                 lo = iv.len_operand(st, {"k": "copy", "place": {"l": 1, "p": [], "s": "_1"}}).lo
         chk.ob("R5 request framing", "R5|shortest-frame", lo == 7, where(rq), "frames reaching the length field are at least %s bytes long (header 6 + LC 1 = 7)" % lo)
-        # cla / ins / p1 positions: constant indexes 0,1,2
-        idx = sorted({e["offset"] if e["k"] == "cindex" else None for bb, s in rq.stmts() if s["k"] == "assign" for pj in [s["rv"].get("op", {}).get("place") if isinstance(s["rv"].get("op"), dict) else None] if pj for e in pj["p"] if e["k"] == "cindex"} - {None})
-        idxs = set()
-        for bb, blk in enumerate(rq.blocks):
-            t = blk["term"]
-            if t and t["k"] == "assert" and t["msg"]["kind"] == "BoundsCheck":
-                v = flow.const_bits(t["msg"]["index"])
-                if v is None:
-                    stt = iv.at(bb, "t")
-                    x = iv.iv_operand(stt, t["msg"]["index"]).exact() if stt is not None else None
-                    v = x
-                if v is not None:
-                    idxs.add(v)
-        chk.ob("R5 request framing", "R5|cla-ins-p1-positions", {0, 1, 2} <= idxs, where(rq), "constant byte positions read: %s" % sorted(idxs))
+        # cla / ins / p1 are bytes 0, 1, 2 of the frame
+        okp = fv.get("cla") == (IN, 0, 1) and fv.get("ins") == (IN, 1, 2) and fv.get("p1") == (IN, 2, 3)
+        chk.ob("R5 request framing", "R5|cla-ins-p1-positions", okp, where(rq), "cla, ins, p1 read from frame bytes: %s" % {k: ("%s..%s" % (v[1], v[2]) if v[0] == IN else "?") for k, v in sorted(fv.items())})
     cf = p.method(U + "commands::Command", "from", trait="core::convert::From")
     if chk.require("R5 request framing", "R5|Command::from", cf, U, "From<u8> for Command not found"):
         chk.touched(cf)
@@ -291,23 +303,37 @@ def run(chk):
         if not chk.require("R5 request framing", "R5|%s::try_from" % nm, b, adt, "%s::try_from not found" % nm):
             continue
         chk.touched(b)
-        iv = intervals.Intervals(p, b)
-        rngs = []
-        for bb, t in sorted(b.calls(), key=lambda x: x[1]["line"] * 1000 + x[0]):
-            if names.call_is(t, "slice::get", "Index::index") and len(t["args"]) > 1:
-                st = iv.at(bb, "t")
-                r = iv.range_of(st, t["args"][1]) if st is not None else None
-                if r:
-                    a = r[1].exact() if r[1] is not None else None
-                    e = r[2].exact() if r[2] is not None else None
-                    if not (r[0] == "to" and e is None):
-                        rngs.append((a, e))
-            if names.call_is(t, "slice::split_at"):
-                st = iv.at(bb, "t")
-                rngs.append(("split", iv.iv_operand(st, t["args"][1]).exact()))
-        got = [r for r in rngs if r[1] is not None or r[0] is not None]
-        ok = got[:len(exp)] == exp or got == [("split", 32), ("split", 32), ("split", 1)][:len(got)] and len(got) >= 2
-        chk.ob("R5 request framing", "R5|%s|payload-carving" % nm, ok, where(b), "payload ranges carved: %s (expected %s)" % (got, exp))
+        from . import bytesview
+        Tb = flow.Terms(p, b)
+        Tb.indexed = True
+        IN = ("param", 1)
+        got = {}
+        ag_ = find_aggs(b, nm)
+        if ag_:
+            bb_, i_, rv_ = ag_[0]
+            for f_, o_ in zip(rv_["fields"], rv_["ops"]):
+                got[f_] = N.norm(Tb.operand(o_, bb_, i_))
+        views = {f_: bytesview.closed_view(t_) for f_, t_ in got.items()}
+        ok = views.get("challenge") == (IN, 0, 32)
+        if nm == "RegisterRequest":
+            ok = ok and views.get("application") == (IN, 32, None)
+            wit = "challenge <- data[0..32], application <- data[32..] (converted to 32 bytes or refused)"
+        else:
+            ok = ok and views.get("application") == (IN, 32, 64)
+            # the key handle: the first `data[64]` bytes of data[65..]
+            kh = got.get("key_handle")
+            gets = [x for x in sub(kh)] if kh is not None else []
+            okh = False
+            for x in gets:
+                if is_call(x, "slice::get") and len(x[2]) == 2 and isinstance(x[2][1], tuple) and len(x[2][1]) == 4 and x[2][1][0] == "agg" and str(x[2][1][1]).endswith("RangeTo"):
+                    end = dict(x[2][1][3]).get("end")
+                    while isinstance(end, tuple) and end and end[0] == "cast":
+                        end = end[-1]
+                    if bytesview.closed_view(x[2][0]) == (IN, 65, None) and bytesview.closed_view(end) == (IN, 64, 65):
+                        okh = True
+            ok = ok and okh
+            wit = "challenge <- data[0..32], application <- data[32..64], key handle <- the first data[64] bytes of data[65..]"
+        chk.ob("R5 request framing", "R5|%s|payload-carving" % nm, bool(ok), where(b), wit if ok else "members read from: %s" % {k: (("data[%s..%s]" % (v[1], v[2] if v[2] is not None else "")) if v[0] == IN else flow.term_str(v[0])[:60]) for k, v in sorted(views.items())})
     chk.floor("R1", 4)
     chk.floor("R2", 6)
     chk.floor("R3", 4)
